@@ -8,9 +8,12 @@
   * `no_holes`  : when every member of an object schema has been placed, no position is left empty — the "nil
         parameter" panic of `buildABIParameterArrayForObject` cannot be reached (placements are in range and never
         overwrite, and there are as many as positions).
-  PARTIAL: the round trip ABI → FFI → ABI (same signature, names, nesting, indexed flags) and totality for schemas of
-  any depth are decided by the correspondence run; the model recurses on fuel (64 levels) and the sufficiency of
-  that fuel is not proved here.
+  * **`abi_ffi_abi`** : the schema generated for a parameter converts back to exactly that parameter — name, type string,
+        indexed flag, internal type and, recursively through arrays and tuples, the same components in the same order
+        (hence the same signature) — for every type tree whose components fit it (`Shape`: distinct member names),
+        arrays nested at most 64 deep, and fuel covering the type (`need`; the conversion runs with 64).
+  PARTIAL: totality for schemas nested deeper than the model's fuel, and the stand-alone signature helper agreeing with
+  the entry's own signature, are decided by the correspondence run.
 -/
 import FFS.Model.Ffi
 namespace FFS.Props.C20
@@ -173,5 +176,342 @@ theorem buildParams_no_hole_panic (fuel : Nat) (props : List (String × Option S
     buildParams (fuel + 1) (some props) = .ok (slots.filterMap id) := by
   rw [buildParams]
   simp only [h, no_holes fuel _ slots h, if_true]
+
+/-! ## ABI → FFI → ABI round trip -/
+
+/-- strip the array layers -/
+def core : Ty → Ty
+  | .farr c _ => core c
+  | .darr c => core c
+  | t => t
+
+def arrayDepth : Ty → Nat
+  | .farr c _ => 1 + arrayDepth c
+  | .darr c => 1 + arrayDepth c
+  | _ => 0
+
+mutual
+  /-- fuel that suffices to convert the schema of a type back -/
+  def need : Ty → Nat
+    | .elem _ _ _ _ => 2
+    | .farr c _ => need c
+    | .darr c => need c
+    | .tuple _ ts => 3 + ts.length + needMax ts
+  def needMax : List Ty → Nat
+    | [] => 2
+    | t :: ts => max (need t) (needMax ts)
+end
+
+mutual
+  /-- the parameter's components fit the type: none for an elementary (array of) type, one per member with distinct
+      names for a tuple; arrays nest at most 64 deep (the depth `processField` descends) -/
+  def Shape : List Param → Ty → Prop
+    | comps, .elem _ _ _ _ => comps = []
+    | comps, .farr c _ => Shape comps c
+    | comps, .darr c => Shape comps c
+    | comps, .tuple _ ts => ShapeL comps ts ∧ (comps.map Param.name).Nodup
+  def ShapeL : List Param → List Ty → Prop
+    | [], [] => True
+    | p :: ps, t :: ts => Shape p.components t ∧ arrayDepth t ≤ 64 ∧ ShapeL ps ts
+    | _, _ => False
+end
+
+theorem schemaOf_details (d : Details) (comps : List Param) : ∀ t, (schemaOf d comps t).details = some d
+  | .elem info _ _ _ => by
+    rw [schemaOf]; unfold leafSchema
+    split <;> (try split) <;> (try split) <;> rfl
+  | .farr c k => by
+    rw [schemaOf]
+    show (schemaOf d comps c).details = some d
+    exact schemaOf_details d comps c
+  | .darr c => by
+    rw [schemaOf]
+    show (schemaOf d comps c).details = some d
+    exact schemaOf_details d comps c
+  | .tuple ns ts => by rw [schemaOf]; rfl
+
+theorem leaf_type (info : ElemInfo) (d : Details) :
+    (leafSchema info d).type ≠ "object" ∧ (leafSchema info d).type ≠ "array" ∧ (leafSchema info d).props = none := by
+  have e1 : ("" : String) ≠ "object" := by decide
+  have e2 : ("" : String) ≠ "array" := by decide
+  have e3 : ("string" : String) ≠ "object" := by decide
+  have e4 : ("string" : String) ≠ "array" := by decide
+  unfold leafSchema
+  split
+  · exact ⟨e1, e2, rfl⟩
+  · split
+    · exact ⟨e1, e2, rfl⟩
+    · split
+      · exact ⟨e1, e2, rfl⟩
+      · exact ⟨e3, e4, rfl⟩
+
+theorem withDetails_type (s : Schema) (d : Option Details) : (s.withDetails d).type = s.type := by cases s; rfl
+theorem withDetails_items (s : Schema) (d : Option Details) : (s.withDetails d).items = s.items := by cases s; rfl
+theorem withDetails_props (s : Schema) (d : Option Details) : (s.withDetails d).props = s.props := by cases s; rfl
+theorem withDetails_details (s : Schema) (d : Option Details) : (s.withDetails d).details = d := by cases s; rfl
+
+/-- the innermost non-array items of the schema of a type are the schema of its core -/
+theorem innermost_core (d : Details) (comps : List Param) : ∀ (t : Ty) (n : Nat), arrayDepth t ≤ n →
+    Model.Ffi.innermostItems n (some ((schemaOf d comps t).withDetails none)) = some ((schemaOf d comps (core t)).withDetails none)
+  | .elem info sfx m k, n, _ => by
+    have ht := (leaf_type info d).2.1
+    cases n with
+    | zero => rfl
+    | succ n =>
+      rw [Model.Ffi.innermostItems, withDetails_type, schemaOf]
+      have : ((leafSchema info d).type == "array") = false := by simpa using ht
+      rw [this]; rfl
+  | .tuple ns ts, n, _ => by
+    cases n with
+    | zero => rfl
+    | succ n =>
+      rw [Model.Ffi.innermostItems, withDetails_type, schemaOf]
+      rfl
+  | .farr c k, n, h => by
+    cases n with
+    | zero => simp [arrayDepth] at h
+    | succ n =>
+      rw [Model.Ffi.innermostItems, withDetails_type, schemaOf]
+      simp only [Schema.type, beq_self_eq_true, if_true, withDetails_items, Schema.items, core]
+      exact innermost_core d comps c n (by simp [arrayDepth] at h; omega)
+  | .darr c, n, h => by
+    cases n with
+    | zero => simp [arrayDepth] at h
+    | succ n =>
+      rw [Model.Ffi.innermostItems, withDetails_type, schemaOf]
+      simp only [Schema.type, beq_self_eq_true, if_true, withDetails_items, Schema.items, core]
+      exact innermost_core d comps c n (by simp [arrayDepth] at h; omega)
+
+theorem dedupLast_nodup {α : Type} : ∀ (l : List (String × α)), (l.map (·.1)).Nodup → dedupLast l = l
+  | [], _ => rfl
+  | (k, v) :: rest, h => by
+    simp only [List.map_cons, List.nodup_cons] at h
+    rw [dedupLast]
+    have hany : rest.any (·.1 == k) = false := by
+      rw [List.any_eq_false]
+      intro p hp hpk
+      apply h.1
+      have : p.1 = k := by simpa using hpk
+      rw [← this]
+      exact List.mem_map.mpr ⟨p, hp, rfl⟩
+    rw [hany]
+    simp only [Bool.false_eq_true, if_false]
+    rw [dedupLast_nodup rest h.2]
+
+theorem schemaOfMembers_keys : ∀ (ps : List Param) (ts : List Ty) (i : Nat), ShapeL ps ts →
+    (schemaOfMembers ps ts i).map (·.1) = ps.map Param.name
+  | [], [], _, _ => by simp [schemaOfMembers]
+  | p :: ps, t :: ts, i, h => by
+    rw [ShapeL] at h
+    rw [schemaOfMembers]
+    simp only [List.map_cons]
+    rw [schemaOfMembers_keys ps ts (i + 1) h.2.2]
+  | [], _ :: _, _, h => by simp [ShapeL] at h
+  | _ :: _, [], _, h => by simp [ShapeL] at h
+
+theorem schemaOfMembers_length : ∀ (ps : List Param) (ts : List Ty) (i : Nat), ShapeL ps ts →
+    (schemaOfMembers ps ts i).length = ps.length := by
+  intro ps ts i h
+  have := congrArg List.length (schemaOfMembers_keys ps ts i h)
+  simpa using this
+
+theorem param_eta (p : Param) : Param.mk p.name p.type p.indexed p.internalType p.components = p := by
+  cases p; rfl
+
+theorem need_ge2 : ∀ t, 2 ≤ need t
+  | .elem _ _ _ _ => by simp [need]
+  | .farr c _ => by rw [need]; exact need_ge2 c
+  | .darr c => by rw [need]; exact need_ge2 c
+  | .tuple _ ts => by rw [need]; omega
+
+theorem needMax_ge2 : ∀ ts, 2 ≤ needMax ts
+  | [] => by simp [needMax]
+  | t :: ts => by rw [needMax]; have := need_ge2 t; omega
+
+/-- converting one member's schema back, given that its components convert back -/
+theorem field_of_comps (t : Ty) (name : String) (d d' : Details) (comps : List Param) (f : Nat)
+    (hdepth : arrayDepth t ≤ 64) (hsh : Shape comps t)
+    (hcomps : buildParams f ((schemaOf d comps (core t)).props) = .ok comps)
+    (h1 : d'.type = d.type) (h2 : d'.indexed = d.indexed) (h3 : d'.internalType = d.internalType) :
+    processField (f + 1) name (some ((schemaOf d comps t).withDetails (some d'))) =
+      .ok (.mk name d.type d.indexed d.internalType comps) := by
+  rw [processField]
+  simp only [withDetails_details, withDetails_type, withDetails_props, withDetails_items]
+  cases t with
+  | elem info sfx m k =>
+    obtain ⟨e1, e2, _⟩ := leaf_type info d
+    rw [schemaOf]
+    have b1 : ((leafSchema info d).type == "object") = false := by simpa using e1
+    have b2 : ((leafSchema info d).type == "array") = false := by simpa using e2
+    rw [b1, b2]
+    rw [Shape] at hsh
+    simp [h1, h2, h3, hsh]
+  | tuple ns ts =>
+    have ht : (schemaOf d comps (.tuple ns ts)).type = "object" := by rw [schemaOf]; rfl
+    rw [ht]
+    simp only [beq_self_eq_true, if_true]
+    have : core (.tuple ns ts) = .tuple ns ts := rfl
+    rw [this] at hcomps
+    rw [hcomps]
+    simp [h1, h2, h3]
+  | farr c k =>
+    have ht : (schemaOf d comps (.farr c k)).type = "array" := by rw [schemaOf]; rfl
+    have hi : (schemaOf d comps (.farr c k)).items = some ((schemaOf d comps c).withDetails none) := by rw [schemaOf]; rfl
+    rw [ht, hi]
+    have hne : (("array" : String) == "object") = false := by decide
+    simp only [hne, Bool.false_eq_true, if_false, beq_self_eq_true, if_true, facts.2.1]
+    rw [innermost_core d comps c 64 (by simp [arrayDepth] at hdepth; omega)]
+    simp only [withDetails_props]
+    have : core (.farr c k) = core c := rfl
+    rw [this] at hcomps
+    rw [hcomps]
+    simp [h1, h2, h3]
+  | darr c =>
+    have ht : (schemaOf d comps (.darr c)).type = "array" := by rw [schemaOf]; rfl
+    have hi : (schemaOf d comps (.darr c)).items = some ((schemaOf d comps c).withDetails none) := by rw [schemaOf]; rfl
+    rw [ht, hi]
+    have hne : (("array" : String) == "object") = false := by decide
+    simp only [hne, Bool.false_eq_true, if_false, beq_self_eq_true, if_true, facts.2.1]
+    rw [innermost_core d comps c 64 (by simp [arrayDepth] at hdepth; omega)]
+    simp only [withDetails_props]
+    have : core (.darr c) = core c := rfl
+    rw [this] at hcomps
+    rw [hcomps]
+    simp [h1, h2, h3]
+
+theorem placeAt_next (pre : List Param) (p : Param) (k : Nat) :
+    placeAt (pre.map some ++ List.replicate (k + 1) none) (pre.length : Int) p =
+      some ((pre ++ [p]).map some ++ List.replicate k none) := by
+  unfold placeAt
+  have hneg : ¬ ((pre.length : Int) < 0) := by omega
+  rw [if_neg hneg]
+  simp only [Int.toNat_natCast]
+  have hget : (pre.map some ++ List.replicate (k + 1) (none : Option Param))[pre.length]? = some none := by
+    rw [List.getElem?_append_right (by simp)]
+    simp [List.replicate_succ]
+  rw [hget]
+  simp only []
+  congr 1
+  rw [List.set_append_right _ _ (by simp)]
+  simp [List.replicate_succ]
+
+mutual
+  /-- the components of a parameter convert back from the schema of the core of its type -/
+  theorem comps_back : ∀ (t : Ty) (d : Details) (comps : List Param) (f : Nat), Shape comps t → need t ≤ f + 1 →
+      buildParams f ((schemaOf d comps (core t)).props) = .ok comps
+    | .elem info sfx m k, d, comps, f, hsh, hf => by
+      rw [Shape] at hsh
+      subst hsh
+      have : core (.elem info sfx m k) = .elem info sfx m k := rfl
+      rw [this, schemaOf, (leaf_type info d).2.2]
+      rw [need] at hf
+      cases f with
+      | zero => omega
+      | succ f => rfl
+    | .farr c k, d, comps, f, hsh, hf => by
+      rw [Shape] at hsh
+      rw [need] at hf
+      exact comps_back c d comps f hsh hf
+    | .darr c, d, comps, f, hsh, hf => by
+      rw [Shape] at hsh
+      rw [need] at hf
+      exact comps_back c d comps f hsh hf
+    | .tuple ns ts, d, comps, f, hsh, hf => by
+      rw [Shape] at hsh
+      rw [need] at hf
+      have : core (.tuple ns ts) = .tuple ns ts := rfl
+      rw [this, schemaOf]
+      simp only [Schema.props]
+      cases f with
+      | zero => omega
+      | succ f =>
+        rw [buildParams]
+        have hkeys := schemaOfMembers_keys comps ts 0 hsh.1
+        have hlen := schemaOfMembers_length comps ts 0 hsh.1
+        rw [dedupLast_nodup _ (by rw [hkeys]; exact hsh.2), hlen]
+        have hlen2 : comps.length = ts.length := by
+          clear hkeys hlen hf
+          have : ∀ (ps : List Param) (ts : List Ty), ShapeL ps ts → ps.length = ts.length := by
+            intro ps
+            induction ps with
+            | nil => intro ts h; cases ts with
+              | nil => rfl
+              | cons _ _ => simp [ShapeL] at h
+            | cons p ps ih => intro ts h; cases ts with
+              | nil => simp [ShapeL] at h
+              | cons t ts => rw [ShapeL] at h; simp [ih ts h.2.2]
+          exact this comps ts hsh.1
+        have := members_back ts comps [] f hsh.1 (by omega)
+        simp only [List.length_nil, List.map_nil, List.nil_append] at this
+        rw [this]
+        simp
+  /-- placing the members: with the first `pre.length` positions filled, the remaining members fill theirs in order -/
+  theorem members_back : ∀ (ts : List Ty) (suf pre : List Param) (fuel : Nat), ShapeL suf ts →
+      suf.length + needMax ts + 1 ≤ fuel →
+      placeAll fuel (schemaOfMembers suf ts pre.length) (pre.map some ++ List.replicate suf.length none) =
+        .ok ((pre ++ suf).map some)
+    | [], suf, pre, fuel, hsh, hf => by
+      cases suf with
+      | nil =>
+        cases fuel with
+        | zero => omega
+        | succ fuel => simp [schemaOfMembers, placeAll]
+      | cons _ _ => simp [ShapeL] at hsh
+    | t :: ts, suf, pre, fuel, hsh, hf => by
+      cases suf with
+      | nil => simp [ShapeL] at hsh
+      | cons p ps =>
+        rw [ShapeL] at hsh
+        rw [needMax] at hf
+        cases fuel with
+        | zero => omega
+        | succ fuel =>
+          rw [schemaOfMembers]
+          simp only [schemaOf_details, Option.map_some]
+          rw [placeAll]
+          cases fuel with
+          | zero => have := needMax_ge2 ts; have := need_ge2 t; simp at hf
+          | succ g =>
+            have hfield := field_of_comps t p.name (detailsOf p) { detailsOf p with index := some (pre.length : Int) } p.components g
+              hsh.2.1 hsh.1 (comps_back t (detailsOf p) p.components g hsh.1 (by simp at hf; omega)) rfl rfl rfl
+            rw [hfield]
+            simp only [facts.1, if_true, withDetails_details, Option.bind_some]
+            have hdet : (detailsOf p).type = p.type ∧ (detailsOf p).indexed = p.indexed ∧ (detailsOf p).internalType = p.internalType :=
+              ⟨rfl, rfl, rfl⟩
+            rw [hdet.1, hdet.2.1, hdet.2.2, param_eta]
+            simp only [List.length_cons]
+            rw [placeAt_next pre p ps.length]
+            simp only []
+            have hrec := members_back ts ps (pre ++ [p]) (g + 1) hsh.2.2 (by simp at hf; omega)
+            simp only [List.length_append, List.length_singleton] at hrec
+            rw [hrec]
+            simp
+end
+
+/-- **ABI → FFI → ABI.** The schema generated for a parameter converts back to exactly that parameter: same name, type
+    string, indexed flag, internal type and — recursively, through arrays and tuples — the same components in the same
+    order; hence the same signature. Hypotheses: the parameter's components fit its type (`Shape`: none below an
+    elementary type, one per tuple member with distinct names), arrays nest at most 64 deep, and the fuel covers the
+    type (`need`). -/
+theorem abi_ffi_abi (p : Param) (t : Ty) (fuel : Nat) (hsh : Shape p.components t) (hdepth : arrayDepth t ≤ 64)
+    (hf : need t ≤ fuel) :
+    processField fuel p.name (some (schemaOf (detailsOf p) p.components t)) = .ok p := by
+  cases fuel with
+  | zero => have := need_ge2 t; omega
+  | succ f =>
+    have h := field_of_comps t p.name (detailsOf p) (detailsOf p) p.components f hdepth hsh
+      (comps_back t (detailsOf p) p.components f hsh hf) rfl rfl rfl
+    have hw : (schemaOf (detailsOf p) p.components t).withDetails (some (detailsOf p)) = schemaOf (detailsOf p) p.components t := by
+      have := schemaOf_details (detailsOf p) p.components t
+      cases hs : schemaOf (detailsOf p) p.components t with
+      | mk ty oo dd pp ii =>
+        rw [hs] at this
+        simp only [Schema.details] at this
+        simp [Schema.withDetails, this]
+    rw [hw] at h
+    rw [h]
+    have hdet : (detailsOf p).type = p.type ∧ (detailsOf p).indexed = p.indexed ∧ (detailsOf p).internalType = p.internalType :=
+      ⟨rfl, rfl, rfl⟩
+    rw [hdet.1, hdet.2.1, hdet.2.2, param_eta]
 
 end FFS.Props.C20
